@@ -93,7 +93,7 @@ class C01(EvalCheck):
                     xs[twin + 1] = xs[twin]           # the same coordinate along both twins
                 qs.append((xs, self.MASKS(t, rng), self.KS(t, rng), ["exact"] if small else [], cl))
             cases.append((t, qs))
-        return cases
+        return add_history_twins(rng, cases)
     def checks_for(self, t, q, iout):
         """(label, k-vector) pairs to judge against the exact specification"""
         return [("m0", [0] * t.ndim)]
